@@ -859,6 +859,10 @@ func (c *ctx) runOp(line string) string {
 		}
 		sort.Strings(rl)
 		return "ok " + hl(rl)
+	case "buildinc":
+		return c.runBuildInc(line, ws)
+	case "dbuild":
+		return c.runDockerBuildLoad(line, ws)
 	case "fset", "build":
 		o, ok := parseFsetOp(ws)
 		if !ok || !plainPath(o.p) {
@@ -880,6 +884,181 @@ func (c *ctx) runOp(line string) string {
 		return out
 	}
 	return "bad-op"
+}
+
+// runBuildInc: a file set that includes 1-3 other file sets of its package, built
+// by the real Builder; the written .fileset lists exactly the union, each once.
+//   buildinc p=<s> tree=<list> sets=<files+files;files+...> files=<list>
+func (c *ctx) runBuildInc(line string, ws []string) string {
+	pw, ok1 := kv(ws[1:], "p")
+	tw, ok2 := kv(ws[1:], "tree")
+	sw, ok3 := kv(ws[1:], "sets")
+	fw, ok4 := kv(ws[1:], "files")
+	if !ok1 || !ok2 || !ok3 || !ok4 {
+		return "bad-op"
+	}
+	pk, tree, files := unhs(pw), unhl(tw), unhl(fw)
+	var sets [][]string
+	if sw != "." {
+		for _, x := range strings.Split(sw, ";") {
+			var l []string
+			if x != "." {
+				for _, y := range strings.Split(x, "+") {
+					l = append(l, unhs(y))
+				}
+			}
+			sets = append(sets, l)
+		}
+	}
+	all := append([]string{pk}, files...)
+	for _, l := range sets {
+		all = append(all, l...)
+	}
+	if !jsonxSafe(all...) || !plainPath(pk) || pk == "" {
+		return "bad-op"
+	}
+	c.treeKey = "\x01invalid"
+	root, ok := c.materialise(tree)
+	c.treeKey = "\x01invalid"
+	if !ok {
+		return "bad-tree"
+	}
+	os.WriteFile(filepath.Join(root, "WORKSPACE.caco3"), []byte(fmt.Sprintf("repo_map { Src: {%s: \"x\"} }\n", quote(pk))), 0o644)
+	var b strings.Builder
+	var incs []string
+	want := map[string]bool{}
+	for i, l := range sets {
+		fmt.Fprintf(&b, "file_set {\n    Name: \"i%d\",\n    Files: %s,\n}\n", i, quoteList(l))
+		incs = append(incs, pk+"/i"+strconv.Itoa(i)) // Include names are used as written: root-relative
+		for _, f := range l {
+			want[caco3.VerifMakePath(pk, f)] = true
+		}
+	}
+	for _, f := range files {
+		want[caco3.VerifMakePath(pk, f)] = true
+	}
+	b.WriteString("file_set {\n    Name: \"zzset\",\n")
+	if len(files) > 0 {
+		fmt.Fprintf(&b, "    Files: %s,\n", quoteList(files))
+	}
+	if len(incs) > 0 {
+		fmt.Fprintf(&b, "    Include: %s,\n", quoteList(incs))
+	}
+	b.WriteString("}\n")
+	bf := filepath.Join(root, "src", filepath.FromSlash(pk), "BUILD.caco3")
+	os.MkdirAll(filepath.Dir(bf), 0o755)
+	os.WriteFile(bf, []byte(b.String()), 0o644)
+	c.j.Risky(line)
+	builder, err := caco3.NewBuilder(root, &caco3.Config{Root: root})
+	if err != nil {
+		return "err-builder"
+	}
+	if _, errs := builder.ReadWorkspace(); errs != nil {
+		return "err-workspace"
+	}
+	errs := builder.Build([]string{pk + "/zzset"})
+	c.j.Clear()
+	if errs != nil {
+		return "err"
+	}
+	bs, err := os.ReadFile(filepath.Join(root, "out", filepath.FromSlash(pk), "zzset.fileset"))
+	if err != nil {
+		c.rep.Fail("fileset-not-written", "the build succeeded but zzset.fileset is missing", []string{line})
+		return "no-fileset"
+	}
+	var list []struct{ Name string }
+	if len(bytes.TrimSpace(bs)) > 0 {
+		if err := json.Unmarshal(bs, &list); err != nil {
+			return "bad-fileset"
+		}
+	}
+	var names []string
+	seen := map[string]bool{}
+	for _, e := range list {
+		if seen[e.Name] {
+			c.rep.Fail("fileset-duplicate-entry", fmt.Sprintf("a file set with Files %q including file sets %q lists %q twice", files, sets, e.Name), []string{line})
+		}
+		seen[e.Name] = true
+		names = append(names, e.Name)
+	}
+	for w := range want {
+		if !seen[w] {
+			c.rep.Fail("fileset-missing", fmt.Sprintf("a file set with Files %q including file sets with files %q does not list %q (listed: %q)", files, sets, w, names), []string{line})
+		}
+	}
+	for n := range seen {
+		if !want[n] {
+			c.rep.Fail("fileset-extra", fmt.Sprintf("a file set with Files %q including file sets with files %q lists %q", files, sets, n), []string{line})
+		}
+	}
+	return "built files=" + hl(names)
+}
+
+// runDockerBuildLoad: a docker_build rule loaded (not executed; no docker needed):
+// its dependencies, the Dockerfile in particular, are names inside <root>/src.
+//   dbuild p=<s> tree=<list> name=<s> df=<s>     (df empty: no Dockerfile field)
+func (c *ctx) runDockerBuildLoad(line string, ws []string) string {
+	pw, ok1 := kv(ws[1:], "p")
+	tw, ok2 := kv(ws[1:], "tree")
+	nw, ok3 := kv(ws[1:], "name")
+	dw, ok4 := kv(ws[1:], "df")
+	if !ok1 || !ok2 || !ok3 || !ok4 {
+		return "bad-op"
+	}
+	pk, tree, name, df := unhs(pw), unhl(tw), unhs(nw), unhs(dw)
+	if !jsonxSafe(pk, name, df) || !plainPath(pk) || pk == "" {
+		return "bad-op"
+	}
+	c.treeKey = "\x01invalid"
+	root, ok := c.materialise(tree)
+	c.treeKey = "\x01invalid"
+	if !ok {
+		return "bad-tree"
+	}
+	// decoys outside <root>/src at the places a climbing name would reach
+	for _, d := range []string{filepath.Join(root, "img"), filepath.Join(c.treeDir, "img"), filepath.Join(root, "src", "img"), root, c.treeDir} {
+		os.MkdirAll(d, 0o755)
+		os.WriteFile(filepath.Join(d, "Dockerfile"), []byte("FROM scratch\n"), 0o644)
+	}
+	os.WriteFile(filepath.Join(root, "WORKSPACE.caco3"), []byte(fmt.Sprintf("repo_map { Src: {%s: \"x\"} }\n", quote(pk))), 0o644)
+	rule := fmt.Sprintf("docker_build {\n    Name: %s,\n", quote(name))
+	if df != "" {
+		rule += fmt.Sprintf("    Dockerfile: %s,\n", quote(df))
+	}
+	rule += "}\n"
+	bf := filepath.Join(root, "src", filepath.FromSlash(pk), "BUILD.caco3")
+	os.MkdirAll(filepath.Dir(bf), 0o755)
+	os.WriteFile(bf, []byte(rule), 0o644)
+	target := caco3.VerifMakeRelPath(pk, name)
+	c.j.Risky(line)
+	_, loaded, errs := caco3.VerifLoad(root, []string{target})
+	c.j.Clear()
+	srcDir := filepath.Join(root, "src")
+	for _, e := range errs {
+		// `stat "<path>": ...`: a dependency looked up outside the source tree
+		if i := strings.Index(e, "stat \""); i >= 0 {
+			rest := e[i+6:]
+			if j := strings.Index(rest, "\""); j >= 0 {
+				if f := rest[:j]; f != srcDir && !strings.HasPrefix(f, srcDir+"/") {
+					c.rep.Fail("source-looked-up-outside-src", fmt.Sprintf("docker_build %q in package %q (Dockerfile %q): the loader looks for a source at %q, outside %q", name, pk, df, f, srcDir), []string{line})
+				}
+			}
+		}
+	}
+	if errs != nil {
+		return "err"
+	}
+	var deps []string
+	for _, n := range loaded {
+		if !plainPath(n.Name) {
+			c.rep.Fail("source-registered-outside-src", fmt.Sprintf("docker_build %q in package %q (Dockerfile %q) registers the node %q, which is %q, outside %q", name, pk, df, n.Name, caco3.VerifSrc(root, n.Name), srcDir), []string{line})
+		}
+		if n.Name == target {
+			deps = append([]string{}, n.Deps...)
+		}
+	}
+	sort.Strings(deps)
+	return "ok deps=" + hl(deps)
 }
 
 // shrink removes tree files, selects, ignores, explicit files and includes
@@ -1377,6 +1556,63 @@ func (g *gen) dotNames() {
 	}
 }
 
+// file sets that include two and three other file sets, each with two or more files
+func (g *gen) includedSets() {
+	tree := []string{"p/BUILD.caco3", "p/a1.txt", "p/a2.txt", "p/b1.txt", "p/b2.txt", "p/c1.txt", "p/c2.txt", "p/c3.txt", "p/own.txt"}
+	enc := func(sets [][]string) string {
+		if len(sets) == 0 {
+			return "."
+		}
+		var xs []string
+		for _, l := range sets {
+			if len(l) == 0 {
+				xs = append(xs, ".")
+				continue
+			}
+			var ys []string
+			for _, f := range l {
+				ys = append(ys, hs(f))
+			}
+			xs = append(xs, strings.Join(ys, "+"))
+		}
+		return strings.Join(xs, ";")
+	}
+	A, B, C := []string{"a1.txt", "a2.txt"}, []string{"b1.txt", "b2.txt"}, []string{"c1.txt", "c2.txt", "c3.txt"}
+	combos := [][][]string{{A}, {A, B}, {B, A}, {A, B, C}, {C, A, B}, {A, A}, {A, {"a2.txt", "b1.txt"}}, {C, {"c3.txt"}}, {{"a1.txt"}, B}, {A, nil, B}, nil,
+		{{"./a1.txt", "../p/a2.txt"}, {"/p/b1.txt", "b2.txt"}}}
+	for _, sets := range combos {
+		for _, files := range [][]string{nil, {"own.txt"}, {"a1.txt", "own.txt"}} {
+			g.add(fmt.Sprintf("buildinc p=%s tree=%s sets=%s files=%s", hs("p"), hl(tree), enc(sets), hl(files)), true)
+			g.rep.Count("buildinc:included-file-sets")
+		}
+	}
+}
+
+// docker_build rules (loaded, not executed): names with .., ./ and absolute-looking
+// names, with and without a Dockerfile field; every dependency stays inside src
+func (g *gen) dockerBuilds() {
+	const p = "shanhu.io/proj/dockers"
+	tree := []string{p + "/BUILD.caco3", p + "/img/Dockerfile", p + "/img2/Dockerfile", p + "/Dockerfile", p + "/other/df", "shanhu.io/proj/Dockerfile"}
+	names := []string{"img", "./img", "img/", "../img", "../../img", "../../../img", "../../../../img", "../../../../../img", "/img", "x/../img",
+		"img2", "a/../../img", "/../../img", "nofile", ".", "img/sub"}
+	dfs := []string{"", "img/Dockerfile", "Dockerfile", "../Dockerfile", "../../../../Dockerfile", "/Dockerfile", "other/df", "/shanhu.io/proj/Dockerfile", "nosuch"}
+	for _, n := range names {
+		for _, df := range dfs {
+			if df != "" && n != "img" && n != "../../../../img" {
+				continue
+			}
+			g.add(fmt.Sprintf("dbuild p=%s tree=%s name=%s df=%s", hs(p), hl(tree), hs(n), hs(df)), true)
+			g.rep.Count("dbuild:docker_build-names")
+		}
+	}
+	for _, pk := range []string{"a/b/x-dockers", "a/dockers"} {
+		t := []string{pk + "/BUILD.caco3", pk + "/img/Dockerfile"}
+		for _, n := range []string{"img", "../img", "../../../../img", "../../../img/x"} {
+			g.add(fmt.Sprintf("dbuild p=%s tree=%s name=%s df=-", hs(pk), hl(t), hs(n)), true)
+		}
+	}
+}
+
 func main() {
 	log.SetOutput(io.Discard)
 	f := hx.ParseFlags()
@@ -1429,6 +1665,8 @@ func main() {
 			g.staleOutputs()
 			g.exclusionSiblings()
 			g.dotNames()
+			g.includedSets()
+			g.dockerBuilds()
 		} else {
 			g.pathOps(4, false)
 			g.randomPathOps(2000)
@@ -1439,6 +1677,8 @@ func main() {
 			g.staleOutputs()
 			g.exclusionSiblings()
 			g.dotNames()
+			g.includedSets()
+			g.dockerBuilds()
 		}
 		rep.Exhaustive = true
 		ops = g.ops
